@@ -15,7 +15,7 @@ META = {
              "send changes nothing; distinct = hash of the step trace; non-trivial = history with >= 1 refused and >= 3 accepted sends"),
     "assumptions": ["inbound ResendRequest servicing (C06) and transport faults (C07/C09) are excluded from these histories"],
 }
-REQUIRED_ORACLES = ["numbering", "journal-readback", "stored-counter", "refused-send-unchanged"]
+REQUIRED_ORACLES = ["numbering", "journal-readback", "stored-counter", "refused-send-unchanged", "bystander-session-untouched"]
 NSHARDS = 16
 N = {"quick": 250, "thorough": 5000}
 
@@ -44,6 +44,16 @@ async def history(acc, clock, rnd, cid):
         s0 = j.create_or_load("PEER", "ME")
         j.set_seq_num(s0, next_num_out=n0, next_num_in=1)
         j.conn.commit()
+    # a second session in the same journal file (another connection of the same process): nothing this connection does may touch it
+    by = j.create_or_load("OTHER", "ME2")
+    for q in range(1, 8):
+        j.persist_msg(fixwire.msg("D", q, "ME2", "OTHER", [(11, f"by-out{q}")]), by, D.OUTBOUND)
+        j.persist_msg(fixwire.msg("8", q, "OTHER", "ME2", [(11, f"by-in{q}")]), by, D.INBOUND)
+
+    def bystander():
+        b = j.create_or_load("OTHER", "ME2")
+        return (b.next_num_out, b.next_num_in, j.recover_messages(b, D.OUTBOUND, 0, sys.maxsize), j.recover_messages(b, D.INBOUND, 0, sys.maxsize))
+    by0 = bystander()
     ep = E.new_endpoint("generic", "ME", "PEER", j, hb=30, name="ME")
     stored0 = j.create_or_load("PEER", "ME").next_num_out
     exp_next = stored0
@@ -82,6 +92,11 @@ async def history(acc, clock, rnd, cid):
                 V("journal:row-differs-from-wire", f"number {n}: journal has {len(row)} row(s) {[fixwire.show(r)[:80] for r in row]} wire {fixwire.show(fb)[:80]}")
                 return False
             exp_next = n + 1
+        acc.oracle("bystander-session-untouched")
+        if bystander() != by0:
+            b1 = bystander()
+            V("other-session-in-same-journal-changed", f"counters {by0[:2]} -> {b1[:2]}, outbound rows {len(by0[2])} -> {len(b1[2])}, inbound rows {len(by0[3])} -> {len(b1[3])}")
+            return False
         acc.oracle("stored-counter")
         live = ep._session.next_num_out
         stored = j.create_or_load("PEER", "ME").next_num_out
@@ -94,11 +109,11 @@ async def history(acc, clock, rnd, cid):
         nsteps = rnd.randrange(10, 41)
         for step in range(nsteps):
             st = ep.connection_state
-            acts = ["send_app", "send_app", "send_hb", "send_tr", "send_test_req", "send_rr", "send_logon", "send_logout"]
+            acts = ["send_app", "send_app", "send_app_stale34", "send_hb", "send_tr", "send_test_req", "send_rr", "send_logon", "send_logout"]
             if not connected:
                 acts += ["attach"] * 6
             else:
-                acts += ["in_logon", "in_testreq", "in_gap", "in_app", "in_app", "in_badhb", "in_toolow", "in_logout", "disconnect"]
+                acts += ["in_logon", "in_testreq", "in_gapfill", "in_gap", "in_app", "in_app", "in_badhb", "in_toolow", "in_logout", "disconnect"]
             a = rnd.choice(acts)
             before = snapshot()
             tap0 = before[0]
@@ -129,7 +144,9 @@ async def history(acc, clock, rnd, cid):
                         return trace, refused, accepted
                 continue
             if a.startswith("send"):
-                m = {"send_app": lambda: FIXMessage("D", {11: f"c{step}", 55: "X"}), "send_hb": lambda: FIXMessage("0"),
+                m = {"send_app": lambda: FIXMessage("D", {11: f"c{step}", 55: "X"}),
+                     # a new message that still carries a MsgSeqNum tag (e.g. a decoded message relayed to this session): a new number is allocated
+                     "send_app_stale34": lambda: FIXMessage("D", {11: f"s{step}", 55: "X", 34: rnd.choice([1, 999, max(1, exp_next - 1)])}), "send_hb": lambda: FIXMessage("0"),
                      "send_tr": lambda: FIXMessage("1", {112: "manual"}), "send_rr": lambda: FIXMessage("2", {7: 1, 16: 0}),
                      "send_logon": lambda: FIXMessage("A", {98: 0, 108: 30}), "send_logout": lambda: FIXMessage("5", {58: "bye"}),
                      "send_test_req": None}[a]
@@ -167,6 +184,11 @@ async def history(acc, clock, rnd, cid):
                 ep.vf_reader.feed(peer.frame("1", None, [(112, f"T{step}")]))
             elif a == "in_app":
                 ep.vf_reader.feed(peer.frame("8", None, [(11, f"p{step}")]))
+            elif a == "in_gapfill":
+                # inbound SequenceReset-GapFill at the expected number: the library renumbers its INBOUND side through set_seq_num
+                e_ = peer.next_out
+                ep.vf_reader.feed(peer.frame("4", e_, [(123, "Y"), (36, e_ + 3)], possdup=True))
+                peer.next_out = e_ + 3
             elif a == "in_gap":
                 peer.next_out += 2
                 ep.vf_reader.feed(peer.frame("8", None, [(11, f"p{step}")]))
